@@ -168,34 +168,44 @@ inductive AccRes where
   | errUnnamed
 deriving DecidableEq, Repr
 
+/-- the part of `on_sync_finished` after a successful `NamespaceStates::finish`: the `SyncFinished` event,
+then `PendingContentReady` (now, or once the queued downloads are done), then the follow-up dial -/
+def LState.afterFinish (s : LState) (ns peer : Bytes) (origin : Nat) (res : Option (Nat × Nat)) (resync : Bool) :
+    LState × List Out :=
+  let r2 := s.send ns (.syncFinished peer origin res)
+  let r3 : LState × List Out :=
+    if r2.1.queuedNs ns then (r2.1.updDoc ns (fun d => { d with mayEmit := true }), [])
+    else ((r2.1.send ns .pendingContentReady).1.updDoc ns (fun d => { d with mayEmit := false }),
+          (r2.1.send ns .pendingContentReady).2)
+  let r4 : LState × List Out := if resync then r3.1.syncWithPeer ns peer 3 else (r3.1, [])
+  (r4.1, r2.2 ++ r3.2 ++ r4.2)
+
+/-- what a session that ended well leads to before the slot is looked at: the peer is registered as
+useful and, if entries were received, the heads are reported to the neighbours -/
+def LState.finishedOuts (s : LState) (ns peer : Bytes) (res : Option (Nat × Nat × Heads.H)) : List Out :=
+  match res with
+  | none => []
+  | some (recv, _, heads) =>
+    [.register ns peer] ++
+      (if recv > 0 then
+        match Heads.encode heads (some s.maxMessageSize) with
+        | some b => s.bcastNeighbors ns (Codec.encGOp (.syncReport ns b))
+        | none => []
+       else [])
+
 /-- `on_sync_finished`; `origin` 0 = accept, `1 + reason` = connect; `res = some (recv, sent, heads)` on success -/
 def LState.onSyncFinished (s : LState) (ns peer : Bytes) (origin : Nat) (res : Option (Nat × Nat × Heads.H)) :
     LState × List Out :=
-  let outs1 : List Out := match res with
-    | none => []
-    | some (recv, _, heads) =>
-      [.register ns peer] ++
-        (if recv > 0 then
-          match Heads.encode heads (some s.maxMessageSize) with
-          | some b => s.bcastNeighbors ns (Codec.encGOp (.syncReport ns b))
-          | none => []
-         else [])
   -- `NamespaceStates::finish`
   match s.doc? ns with
-  | none => (s, outs1)
+  | none => (s, s.finishedOuts ns peer res)
   | some d =>
     match d.slot peer with
-    | (.idle, resync) => (s.updDoc ns (·.setSlot peer (.idle, resync)), outs1)
+    | (.idle, resync) => (s.updDoc ns (·.setSlot peer (.idle, resync)), s.finishedOuts ns peer res)
     | (_, resync) =>
-      let s := s.updDoc ns (·.setSlot peer (.idle, resync))
-      let (s, outs2) := s.send ns (.syncFinished peer origin (res.map fun (r, st, _) => (r, st)))
-      let (s, outs3) :=
-        if s.queuedNs ns then (s.updDoc ns (fun d => { d with mayEmit := true }), [])
-        else
-          let (s, o) := s.send ns .pendingContentReady
-          (s.updDoc ns (fun d => { d with mayEmit := false }), o)
-      let (s, outs4) := if resync then s.syncWithPeer ns peer 3 else (s, [])
-      (s, outs1 ++ outs2 ++ outs3 ++ outs4)
+      let r := (s.updDoc ns (·.setSlot peer (.idle, resync))).afterFinish ns peer origin
+                 (res.map fun (r, st, _) => (r, st)) resync
+      (r.1, s.finishedOuts ns peer res ++ r.2)
 
 inductive In where
   /-- `start_sync(ns, [])`: `openOk` = the store actor opened the replica; `known` = the useful peers
